@@ -18,8 +18,10 @@ AggTxsV == [a \in AggV |-> CASE a = "a1" -> <<"t1", "t2">>
 Base == 2          \* model commitment threshold; the harness maps nc, nr to the real threshold
 
 Off == [on |-> FALSE, ts |-> 0, nc |-> 0, nr |-> 0]
-\* below the threshold (all responded) / threshold reached, one response missing / complete
-Progress == IF Family = "two" THEN {<<1, 1>>, <<2, 1>>, <<2, 2>>} ELSE {<<1, 1>>, <<2, 2>>}
+\* <<commitments, responses>> relative to Base: below the threshold / threshold reached and no response
+\* yet / threshold reached, some but not all responses / complete. The harness maps commitments 1 -> real
+\* threshold - 1, 2 -> real threshold; responses 0 -> 0, = commitments -> all, otherwise -> all but one.
+Progress == IF Family = "two" THEN {<<1, 1>>, <<2, 0>>, <<2, 1>>, <<2, 2>>} ELSE {<<1, 0>>, <<2, 1>>, <<2, 2>>}
 OnTimed == { [on |-> TRUE, ts |-> ts, nc |-> pr[1], nr |-> pr[2]] : ts \in {0, 1}, pr \in Progress }
 OnPlain == { [on |-> TRUE, ts |-> 0, nc |-> 1, nr |-> 1] }
 
@@ -73,12 +75,15 @@ Post == Apply(Pre, c.o, TRUE)
 PostAll == Apply(Pre, c.o, FALSE)     \* witness variant: retry requeues every transaction
 
 \* the property holds for every step of the specification
-PropertyHolds == StepOK(Pre, c.o, Post)
+PropertyHolds == StepOK(Pre, c.o, Post) /\ StepOKObs(Pre, c.o, Post)
 \* expiry does not depend on the iteration order of the Go map
 OrderFree == c.o.op = "Expire" => ExpireOrderFree(Pre, c.o.now, c.o.base, TRUE)
 \* non-vacuity (each must be violated): the property tells the two retry variants apart, some step
 \* re-queues something, some step must leave an owned transaction alone
 RequeueAllBreaks == StepOK(Pre, c.o, PostAll)
+\* a proposal with the threshold reached but an unanswered commitment expires (must be violated)
+ReachPartialExpires == ~(c.o.op = "Expire" /\ \E a \in AggV : a \in MustExpire(Pre, c.o) /\ Pre.agg[a].nc >= Base
+                                                              /\ Pre.agg[a].nr > 0 /\ Pre.agg[a].nr < Pre.agg[a].nc)
 ReachRequeued == ~(\E t \in TxV : ~Eligible(Pre, t) /\ Eligible(Post, t))
 ReachOwnedKept == ~(\E t \in TxV : OwnedByActive(Pre, c.o, t) /\ t \in RetiredTxs(Pre, c.o)
                                      /\ ~Pre.final[t] /\ HasBody(Pre, t) /\ ~Eligible(Post, t))
